@@ -1,6 +1,7 @@
----- MODULE MC_Write ----
+---- MODULE MC_Watch ----
 EXTENDS KubeBrain
-MCPrefixOf == [p \in {0} |-> Keys]
+\* prefix ids: 0 = "/" (every key), 1 = "/a-" (key 2 only), 2 = "/a/" (key 3 only)
+MCPrefixOf == [p \in {0, 1, 2} |-> CASE p = 0 -> Keys [] p = 1 -> Keys \cap {2} [] p = 2 -> Keys \cap {3}]
 MCNoFixedOps == << >>
 MCAlternate == << [type |-> "create", key |-> 1, val |-> "x", exp |-> 0], [type |-> "delete", key |-> 1, val |-> "-", exp |-> 0],
                   [type |-> "create", key |-> 1, val |-> "x", exp |-> 0], [type |-> "update", key |-> 1, val |-> "x", exp |-> 6],
